@@ -36,10 +36,8 @@ let chk_history (b : int) (oc : out_channel) (tr : (string, (int * event list) l
         let (_, o) = List.nth h.ops k in
         (o, if i = n - 1 then evs @ leaks else evs)) real in
     let bb = nat_of_int b in
-    let res = [
-      "C02", chk_C02 t; "C04", chk_C04 t; "C05", chk_C05 t; "C06", chk_C06 t; "C07", chk_C07 t;
-      "C08", chk_C08 t; "C09", chk_C09 t; "C10", chk_C10 t; "C11", chk_C11 t;
-      "C13", chk_C13a bb t; "C14", chk_C14b t; "C15", chk_C15 t; "C16", chk_C16 t ] in
+    let names = ["C01";"C02";"C03";"C04";"C05";"C06";"C07";"C08";"C09";"C10";"C11";"C12";"C13";"C14";"C15";"C16";"C17";"C18";"K14"] in
+    let res = List.combine names (chk_all bb t) in
     Printf.fprintf oc "%s %s\n" h.name
       (String.concat " " (List.map (fun (n, v) -> Printf.sprintf "%s=%d" n (if v then 1 else 0)) res))
 
